@@ -211,9 +211,12 @@ class SpyFuture(Future):
         self.tag = tag
         self.cancel_calls = []
         self.refuse_cancels = 0  # refuse the next n cancel() calls (like a delegate whose cancel can be vetoed)
+        self.cancel_cost = 0.0  # virtual seconds a cancel() call takes (e.g. a remote call)
 
     def cancel(self):
         s = LOG.add("spy.cancel", tag=self.tag)
+        if self.cancel_cost:
+            instr.burn(self.cancel_cost)
         if self.refuse_cancels > 0 and not self.done():
             self.refuse_cancels -= 1
             self.cancel_calls.append((s, instr.vnow(), False))
